@@ -270,6 +270,11 @@ def r9_one_admission_table(ctx):
 
 
 def run(ctx):
+    ctx.rule('C05.R11', 'engine.io events are wired to the three handlers; '
+             '_send_packet hands every frame to the transport', floor=6)
+    msgpath.wiring(ctx, 'BaseServer', 'C05.R11')
+    for fam in SA:
+        msgpath.send_frames(ctx, SERVER[fam], 'C05.R11')
     ctx.rule('C05.R10', 'asyncio: a started handler task stays strongly '
              'referenced under itself', floor=1)
     r10_task_kept(ctx)
@@ -320,6 +325,10 @@ def run(ctx):
     ctx._cur = 'C13.R3'
     for cname in ('Server', 'AsyncServer'):
         c13.r3_trigger(ctx, cname, True)
+    ctx.rule('C13.R4', 'class-based namespaces hand the method\'s result '
+             'back (it becomes the ACK payload) (shared rule)', floor=6)
+    for cname in ('Namespace', 'AsyncNamespace'):
+        c13.r4_namespace_trigger(ctx, cname)
     ctx.assume('engine.io delivers the frames of one client in order and '
                'contains exceptions of the message callback')
     ctx.assume('exactly-once over whole sequences follows from exactly one '
